@@ -121,9 +121,9 @@ func zzC16Run(in *zzC16In, rng *rand.Rand, reqID uint64) (out zzC16Out, concrete
 			StrictSNICheck: in.Strict,
 		}},
 		baseLogger:    slogutil.NewDiscardLogger(),
-		access:        acc,
 		clientIDCache: zzNewClientIDCache(),
 	}
+	srv.access.Store(acc)
 
 	cli := zzC16Name(in.Cli)
 	req := (&dns.Msg{}).SetQuestion("probe.example.org.", dns.TypeA)
